@@ -16,6 +16,7 @@ package db
 //@ func (d *Database) StoreSignedVAA(v *vaa.VAA) (err error)
 //@   assume-contract
 //@   requires [signed] v != nil && len(v.Signatures) > 0
+//@   requires [quorum-signed] marked("quorumSigned", v)
 //@   ensures [stored] err == nil ==> stored(d, idOf(v)) && vaa.encodes(storedBytes(d, idOf(v)), v)
 //@   ensures [failed-unchanged] err != nil ==> storeUnchanged(d)
 //@   ensures [others] storeUnchangedExcept(d, idOf(v))
